@@ -3,7 +3,8 @@ import PyaModel.Spec.CpyFormat
 
 Templates are comma-separated decimal code points (`-` = empty template).
 
-in : `P <s|b> <template> | <arg>`      `%` formatting; s = str template, b = bytes template
+in : `P <s|b> <template> | <arg> [/ <arg> …]`   `%` formatting; s = str, b = bytes template;
+        several ` / `-separated args = a union-typed operand (cpy: one verdict per member, `;`-separated)
         arg  : `S <elem>` | `T <elem>*` | `D <key>=<elem> …`
         elem : `i<int>` `bT` `bF` `f` `s<len>` `y<len>` `N` `c` `L` `T` `D`
         key  : `s<cp.cp…>` (str key) | `y<cp.cp…>` (bytes key) | `o` (any other literal key)
@@ -85,15 +86,19 @@ def pctClasses (b : Bool) (t : List Char) (a : Arg) : List String :=
   (if D17_nonStrKey b t a then ["nonStrKey"] else []) ++
   (if D17_pctOnlyMapping b t a then ["pctOnlyMapping"] else [])
 
+def dedup (xs : List String) : List String := xs.foldl (fun acc x => if acc.contains x then acc else acc ++ [x]) []
+
+/-- `arg` may be a union: members separated by ` / `. -/
 def handleP (kind tmpl arg : String) : String :=
-  match parseCps ',' tmpl, parseArg arg with
-  | some t, some a =>
+  match parseCps ',' tmpl, (arg.splitOn "/").mapM parseArg with
+  | some t, some as =>
     let b := kind == "b"
-    let o := pyaPercent b t a
-    let cpy := match cpyPercent b t a with
+    let o := pyaPercentU b t as
+    let cpy := as.map fun a => match cpyPercent b t a with
       | .raises => "raises"
       | .ok ty => "ok:" ++ showTy ty
-    s!"errs={showList (o.errs.map showErr)} ty={showTy o.ty} cpy={cpy} D={showList (pctClasses b t a)}"
+    let ds := dedup (as.flatMap (pctClasses b t))
+    s!"errs={showList (o.errs.map showErr)} ty={showTy o.ty} cpy={";".intercalate cpy} D={showList ds}"
   | _, _ => "bad-op"
 
 def showFErr : FErr → String
